@@ -150,7 +150,8 @@ impl<'r> Gen<'r> {
             }
             Ty::U8 => {
                 let form = if self.mistake(self.cfg.allow.bad_value, 15) {
-                    match self.rng.below(7) {
+                    match self.rng.below(8) {
+                        7 => Form::NV(Value::PathExpr(self.rng.pick(&NON_LITERAL_EXPRS).to_string())),
                         0 => Form::NV(Value::Int("256".into())),
                         1 => Form::NV(Value::Int("99999999999999999999999999".into())),
                         2 => Form::NV(Value::Str("x1".into())),
@@ -169,7 +170,8 @@ impl<'r> Gen<'r> {
             }
             Ty::Bool => {
                 let form = if self.mistake(self.cfg.allow.bad_value, 15) {
-                    match self.rng.below(3) {
+                    match self.rng.below(4) {
+                        3 => Form::NV(Value::PathExpr(self.rng.pick(&NON_LITERAL_EXPRS).to_string())),
                         0 => Form::NV(Value::Str("yes".into())),
                         1 => Form::NV(Value::Int("1".into())),
                         _ => Form::List(vec![]),
@@ -185,10 +187,10 @@ impl<'r> Gen<'r> {
             }
             Ty::Str => {
                 let form = if self.mistake(self.cfg.allow.bad_value, 15) {
-                    if self.rng.pct(50) {
-                        Form::NV(Value::Int("3".into()))
-                    } else {
-                        Form::Word
+                    match self.rng.below(3) {
+                        0 => Form::NV(Value::Int("3".into())),
+                        1 => Form::NV(Value::PathExpr(self.rng.pick(&NON_LITERAL_EXPRS).to_string())),
+                        _ => Form::Word,
                     }
                 } else {
                     Form::NV(Value::Str(self.rng.pick(&["", "hello", "a b", "s12"]).to_string()))
@@ -262,10 +264,11 @@ impl<'r> Gen<'r> {
             }
             Ty::Char => {
                 let form = if self.mistake(self.cfg.allow.bad_value, 15) {
-                    if self.rng.pct(50) {
-                        Form::NV(Value::Str("ab".into()))
-                    } else {
-                        Form::NV(Value::Bool(false))
+                    match self.rng.below(4) {
+                        0 => Form::NV(Value::Str("ab".into())),
+                        1 => Form::NV(Value::Str("".into())),
+                        2 => Form::NV(Value::PathExpr(self.rng.pick(&NON_LITERAL_EXPRS).to_string())),
+                        _ => Form::NV(Value::Bool(false)),
                     }
                 } else if self.rng.pct(50) {
                     Form::NV(Value::Char('z'))
@@ -631,6 +634,10 @@ impl<'r> Gen<'r> {
         out
     }
 }
+
+/// Values that are expressions but not literals: every built-in scalar conversion rejects them
+/// (`unexpected expression type`), with a span inside the value.
+pub const NON_LITERAL_EXPRS: [&str; 10] = ["a::b", "-1", "(1)", "[1]", "m!()", "1 + 2", "{ 1 }", "|x| x", "&x", "x.y"];
 
 pub const META_RECEIVERS: [&str; 36] = [
     "S1", "S2", "S3", "S4", "S5", "S6", "S7", "S8", "S9", "S10", "S11", "S12", "S13", "S14", "S15", "S16", "S17", "E4", "E5", "N1", "N2", "Rec", "F1", "F2", "F3", "F4", "U1", "NT1", "NT2", "W1", "E1",
